@@ -180,3 +180,9 @@ def d103_combine_first_empty_partition_column_order(case, rec):
 
     m = re.findall(r"\[([^\]]*)\]", rec.get("detail", ""))
     return len(m) >= 2 and sorted(m[0].split(", ")) == sorted(m[1].split(", ")) and m[0] != m[1]
+
+
+def d104_reimport_converts_object_columns_to_string(case, rec):
+    """C17: from_delayed / from_legacy_dataframe apply the pyarrow-string conversion to every object column of the re-imported
+    partitions, also to object columns that hold non-string values (a shifted bool column)."""
+    return rec.get("kind") == "cut-changes-result" and "string != object" in rec.get("detail", "") and (rec.get("cut") or [None, ""])[1] in ("delayed", "delayed_nodiv", "legacy", "legacy_noopt")
